@@ -1,7 +1,7 @@
 (* props/C06.v — Python decode is total: any bytes decode or raise ProphyError, nothing else. *)
 From Coq Require Import ZArith List Bool Lia.
 From Prophy Require Import Bytes Schema Layout Wire Src PyStatics PyEncode PyDecode
-  Arith SpecAlign Views SpecLen PyStaticsFacts PyEncodeFacts PyDecodeFacts.
+  Arith SpecAlign Views SpecLen PyStaticsFacts PyEncodeFacts PyDecodeFacts PyRoundtrip PyDecodeWt.
 Import ListNotations.
 Local Open Scope Z_scope.
 
@@ -38,13 +38,50 @@ Proof.
 Qed.
 Print Assumptions C06_progress.
 
-(* Not proved here (stated for the record, decided by the correspondence/oracle run only):
-   C06_fixpoint : py_decode e t data = Ok (v, n) ->
-     exists b, py_enc e t v = Ok b /\ (exists v', py_decode e t b = Ok (v', len b) /\ py_enc e t v' = Ok b
-                                       /\ (greedy_tail_aligned t v = true -> v' = v)). *)
+(* Whatever the decoder returns is a well-typed value within its own array guard: every scalar in
+   range, enums among their enumerators, array lengths consistent with the (derived) counters, limits
+   kept, exactly the discriminated arm. [data] is any string of bytes (0..255); [unshared]: no counter
+   is shared by two arrays (always so for x<> and x<N>; an explicit x<@n> may share, and then a limited
+   bytes field that is cut short by the end of the input can leave arrays of different lengths — that
+   corner is outside this theorem and is covered by the differential run only). *)
+Theorem C06_decoded_well_typed :
+  forall e fs data v n, forallb is_byte data = true -> legal (TStruct fs) = true -> unshared (TStruct fs) ->
+    py_decode e (TStruct fs) data = Ok (v, n) ->
+    wt (TStruct fs) v = true /\ within_guard (TStruct fs) v = true.
+Proof.
+  intros e fs data v n Hb Hl Hu H. unfold py_decode in H.
+  destruct (py_dec_wt e data (S (length data)) Hb (TStruct fs) Hu Hl eq_refl 0 true v n ltac:(lia) H) as [[Hw Hg] _].
+  split; assumption.
+Qed.
+Print Assumptions C06_decoded_well_typed.
+
+(* the fixpoint statement of the property, for messages without a greedy tail: the decoded message
+   encodes without error, and decoding that encoding gives the same value and consumes all of it
+   (so re-encoding gives the same bytes) *)
+Theorem C06_fixpoint :
+  forall e fs data v n, forallb is_byte data = true -> legal (TStruct fs) = true -> unshared (TStruct fs) ->
+    stiffness (TStruct fs) <> Unlimited ->
+    py_decode e (TStruct fs) data = Ok (v, n) ->
+    exists b, py_enc e (TStruct fs) v = Ok b /\ py_decode e (TStruct fs) b = Ok (v, len b).
+Proof.
+  intros e fs data v n Hb Hl Hu Hs H.
+  destruct (C06_decoded_well_typed e fs data v n Hb Hl Hu H) as [Hw Hg].
+  exists (wire e (TStruct fs) v). split.
+  - apply py_enc_canonical; [reflexivity|exact Hl|exact Hw].
+  - apply py_decode_roundtrip; assumption.
+Qed.
+Print Assumptions C06_fixpoint.
 
 Example C06_example_truncated :
   py_decode LE (TStruct [(FPlain, TScalar U32); (FBound 0%nat, TScalar U16)]) [2; 0; 0; 0; 1; 0; 2] = Err ProphyError
   /\ py_decode LE (TStruct [(FPlain, TScalar U32); (FBound 0%nat, TScalar U16)]) [2; 0; 0; 0; 1; 0; 2; 0]
      = Ok (VStruct [VInt 2; VList [VInt 1; VInt 2]], 8).
 Proof. vm_compute. split; reflexivity. Qed.
+
+Example C06_unshared_inhabited :
+  unshared (TStruct [(FPlain, TScalar U32); (FBound 0%nat, TScalar U16); (FPlain, TScalar U8); (FLimited 3 2%nat, TByte)]).
+Proof.
+  apply un_struct.
+  - intros i. do 5 (destruct i as [|i]; [cbn; lia|]). cbn. lia.
+  - repeat constructor.
+Qed.
